@@ -77,9 +77,12 @@ fn run_h<H: Hasher + Default>(c: &Case) -> Eval {
     let mut dict: HashMap<Vec<u8>, u64> = HashMap::new();
     let mut selected: Vec<BTreeSet<(u8, usize)>> = vec![];
     for p in 0..m {
-        let idx: Vec<usize> = indices[p * l..(p + 1) * l].iter().map(|x| *x as usize).collect();
+        // the hook exposes the stored indices; the property only says that the selected elements are READ in sequence order,
+        // so the order in which they are stored is not asserted: they are sorted here, and must be distinct
+        let mut idx: Vec<usize> = indices[p * l..(p + 1) * l].iter().map(|x| *x as usize).collect();
+        idx.sort_unstable();
         for w in idx.windows(2) {
-            ensure!(w[0] < w[1], "position {}: selected indices {:?} are not strictly ascending / distinct", p, idx);
+            ensure!(w[0] < w[1], "position {}: the same sequence index is selected twice: {:?}", p, idx);
         }
         ensure!(idx.iter().all(|i| *i < n), "position {}: selected index out of range {:?} (length {})", p, idx, n);
         let sub: Vec<u8> = idx.iter().map(|i| c.seq[*i]).collect();
